@@ -84,7 +84,11 @@ def _opaque(tag):
 
 
 _UUIDLIKE = UuidLike()
-_SUBCLASS = {"MyInt": (MyInt, "int"), "MyFloat": (MyFloat, "float"), "MyStr": (MyStr, "str"),
+def _defaultdict(base):
+    return collections.defaultdict(int, base)
+
+
+_SUBCLASS = {"DefaultDict": (collections.defaultdict, "dict"), "MyInt": (MyInt, "int"), "MyFloat": (MyFloat, "float"), "MyStr": (MyStr, "str"),
              "MyBytes": (MyBytes, "bytes"), "MyList": (MyList, "list"), "MyDict": (MyDict, "dict"),
              "OrderedDict": (collections.OrderedDict, "dict")}
 
@@ -187,6 +191,8 @@ def g_value(v):
         return "[" if v["why"] == "error" else "a{99999999999999999999}"
     if k == "obj":
         cls = v["cls"]
+        if cls == "DefaultDict":
+            return _defaultdict(g_value(v["base"][0]))
         if cls in _SUBCLASS:
             return _SUBCLASS[cls][0](g_value(v["base"][0]))
         if cls in _ZOO:
@@ -257,6 +263,8 @@ def a_value(x):
             for i in range(0, 64):
                 if uuid.UUID(int=_UUID_BASE + i, version=ver) == x:
                     return {"k": "uuid", "ver": ver, "id": i}
+        if ver is None and x.int < 64:
+            return {"k": "uuid", "ver": 0, "id": x.int}       # not an RFC 4122 UUID: version is None
         raise Unrepresentable("uuid %r" % (x,))
     if t is _dt.datetime:
         delta = x - _dt.datetime(2020, 1, 2, 3, 4, 5)
@@ -561,7 +569,14 @@ def a_path(path, root=None):
             out.append({"ix": operand})
         if known:
             try:
-                cur = cur[operand]
+                if isinstance(cur, dict):
+                    # never cur[operand]: a defaultdict would *insert* the key we merely look at
+                    if operand in cur:
+                        cur = dict.get(cur, operand)
+                    else:
+                        known = False
+                else:
+                    cur = cur[operand]
             except Exception:
                 known = False
     return out
@@ -604,7 +619,7 @@ def a_error(e, root=None):
     elif kind == "schema_mismatch":
         r["types"] = [a_schema(x) for x in e.expected_schemas]
     elif kind == "uuid_version":
-        r["ver"] = e.actual_version if isinstance(e.actual_version, int) else -1
+        r["ver"] = e.actual_version if isinstance(e.actual_version, int) else 0
     return r
 
 
